@@ -6,7 +6,8 @@ CONSTANTS
   Peek = 0
   MaxTimeouts = 0
   Priors = {0}
+  DispatchBound = 2
   Defects = {}
 SPECIFICATION Spec
-INVARIANTS InOrderOnce NoEarly Prompt Consumed PrefaceOnce NoError NoByteLost SameForEveryCut EmitCase
+INVARIANTS InOrderOnce NoEarly Prompt Consumed PrefaceOnce NoError NoByteLost LoopUntilDry CompleteFromAgrees SameForEveryCut EmitCase
 CHECK_DEADLOCK FALSE
